@@ -9,7 +9,9 @@ PARTIAL = [
     "the shared geometry the model is written in IS tied to the source by translation (geometry_layer_translated: the bodies of "
     "Rectangle::Rectangle / width / height / intersects / contains / intersection, Circuit::isFixed / isObstruction / x / y / "
     "orientation / placedWidth / placedHeight / placement and isTurn, regenerated from the clang AST on every run into "
-    "Gen/GeomFns.lean, are proved equal as functions to Rect.* / Cell.*); NOT translated: the loop of Circuit::computeRows and "
+    "Gen/GeomFns.lean, are proved equal as functions to Rect.* / Cell.*); geometry_loops_translated adds the loops of Circuit::rowHeight "
+    "(equal to the model for every circuit) and Circuit::computePlacementArea (equal when the row coordinates are C++ ints, because "
+    "of its INT_MAX / INT_MIN sentinels; (0,0,0,0) for no rows on both sides); NOT translated: the loop of Circuit::computeRows and "
     "Row::freespace (boost::polygon), see the next item, and the translator's stated representation map (cellX_[cell] = field x of "
     "the cell's record)",
     "boost::polygon itself is not verified: the theorems are about the executable interval model "
